@@ -12,7 +12,8 @@ if [ "$1" = "--one" ]; then
     if ! (cd $tree && patch -p1 --no-backup-if-mismatch -s < $V/$d/patch.diff >/dev/null 2>&1); then
         echo "$id PATCH-FAILED"; rm -rf $tree $rp; exit 0
     fi
-    out=$(VERIF_REPO=$tree VERIF_NO_EVIDENCE=1 VERIF_REPLAY_DIR=$rp $V/check $prop --tier quick 2>&1)
+    tier=$(python3 -c "import json;print(json.load(open('$d/meta.json')).get('caught_tier','quick'))")
+    out=$(VERIF_REPO=$tree VERIF_NO_EVIDENCE=1 VERIF_REPLAY_DIR=$rp $V/check $prop --tier $tier 2>&1)
     rc=$?
     rule=$(printf "%s" "$out" | grep -a -m1 "^  rule=" | cut -c1-100)
     verdict=$(python3 -c "import json;print(json.load(open('$d/meta.json')).get('verdict',''))")
